@@ -131,3 +131,18 @@ Definition seqj_side_ok (ops : list op) : bool :=
   | Some Lc' => seqj_side_with Lc' ops
   | None => false
   end.
+
+(* ---- dce: table condition ---- *)
+(* use/def lists fit the kinds; an op without side effect is MOVE/NOOP/plain op (never RVRT, never
+   a label/jump/call/ret) and sets no call-input register *)
+Definition dce_table_ok (ops : list op) : bool :=
+  andb (forallb wf_c_opb ops)
+       (forallb (fun o => orb (se o)
+                   (andb (match kind o with
+                          | KMove _ _ | KNoop => true
+                          | KOther opc _ => negb (N.eqb opc OPC_RVRT)
+                          | _ => false end)
+                         (forallb (fun r => negb (memb r call_in_regs)) (defs_c o)))) ops).
+
+Definition dceK (ops : list op) (keep : list bool) (r : reg) : Prop :=
+  exists i o, nth_error keep i = Some false /\ nth_error ops i = Some o /\ In r (defs_c o).
